@@ -10,15 +10,29 @@ disc   <ck> <cn> <tr> <tm>                         -> ok <rec-keys> | err <nf|ot
 conn   <hr> <ck> <cn> <tr> <tm> <hs> <chain>       -> as check
 res    <srv>*                                      -> <ck> <cn> <tr> <tm> (results as rec keys) | panic
 rconn  <hs> <chain> <srv>+                         -> as check
+attempt <base> <att> <att> <att> <hr> <ck> <cn> <tr> <tm> <chainN>
+                                                   -> <connErr | refused <temp|tls|nomatch> | ok <none|enc|auth> | panic> st=<state>
 ```
 
 * `<chain>` = `n:<cabits>:<vbits>`: n presented certificates (0 = leaf), `cabits[j]` = IsCA of
   certificate j, `vbits[mask]` = result of x509 verification of the leaf with roots = the
   certificates in `mask` (bit j = certificate j) and all other presented certificates as
   intermediates. Empty bit strings are written `-`.
-* `<rec>` = `usage.selector.mtype.kind.tag[.owner]`: `tag` is the bit mask of presented certificates
-  the association data matches (bit j = certificate j); `kind` is for the harness only; `owner` is
-  the index of the RR's owner name in the harness' table (0 = `_25._tcp.<mx>`, the default).
+* `<rec>` = `usage.selector.mtype.kind.tag[.owner[.dlen]]`: `tag` is the bit mask of presented
+  certificates the association data matches (bit j = certificate j); `kind` is for the harness only;
+  `owner` is the index of the RR's owner name in the harness' table (0 = `_25._tcp.<mx>`, the
+  default); `dlen` the length in bytes of the association data (default 32).
+* `attempt` (the real `attemptMX` with the DANE policy against a scripted STARTTLS server): the MX host
+  is name 0. `<base>` = `-` (no TLS configuration) or `<name|->:<insecure>` = ServerName /
+  InsecureSkipVerify of `rd.rt.tlsConfig`; `<att>` = `<connectOk><starttls><starttlsCmdOk><T|H>` for
+  the 1st, 2nd, 3rd connection (`H`: the handshake breaks, not by verification); `<chainN>` =
+  `n:<cabits>:<vHost>:<vNone>:<vOther>:<pkix>`: the X.509 table of `<chain>` for the reference
+  identifiers "MX host", "" (no name check) and "another name", and `pkix[k]` = does the presented
+  chain pass crypto/tls' own verification against the client's root pool for name k (0 = MX host,
+  1 = the other name). A handshake under a configuration without server name and without
+  InsecureSkipVerify is refused by crypto/tls itself (`otherErr`). `<state>` = `-` (connect failed)
+  or `<hs>:<H|E|O>:<level>` = HandshakeComplete, ServerName (MX host / empty / other), tlsLevel
+  handed to `CheckConn`.
 * `<srv>` = `<loopback>/<a>/<aaaa>/<cname>/<tlsaR>/<tlsaM>`, each question `<udp>~<tcp>`, each
   message `x` (no usable answer) or `<rcode>:<ad>:<tc>:<body>`; body = `E|S|O` (owner of the last
   address record: none / the MX name / another name) for a and aaaa, `-` for cname, `<rec>,…` or
@@ -40,8 +54,9 @@ def nat? (s : String) : Option Nat := s.toNat?
 
 def parseRec (s : String) : Option Rec :=
   match s.splitOn "." with
-  | [u, sl, m, _, t] => do pure ⟨← nat? u, ← nat? sl, ← nat? m, ← nat? t, 0⟩
-  | [u, sl, m, _, t, o] => do pure ⟨← nat? u, ← nat? sl, ← nat? m, ← nat? t, ← nat? o⟩
+  | [u, sl, m, _, t] => do pure ⟨← nat? u, ← nat? sl, ← nat? m, ← nat? t, 0, 32⟩
+  | [u, sl, m, _, t, o] => do pure ⟨← nat? u, ← nat? sl, ← nat? m, ← nat? t, ← nat? o, 32⟩
+  | [u, sl, m, _, t, o, d] => do pure ⟨← nat? u, ← nat? sl, ← nat? m, ← nat? t, ← nat? o, ← nat? d⟩
   | _ => none
 
 structure Chain where
@@ -135,7 +150,7 @@ def parseFut (s : String) (recs : List Rec) : Option (Except DiscErr (List Rec))
   else if s == "e:na" then some (.error .noAddress)
   else none
 
-def recKey (r : Rec) : String := s!"{r.usage}.{r.selector}.{r.mtype}.{r.tag}.{r.owner}"
+def recKey (r : Rec) : String := s!"{r.usage}.{r.selector}.{r.mtype}.{r.tag}.{r.owner}.{r.dlen}"
 
 def parseRName (s : String) : Option RName :=
   if s == "E" then some .empty else if s == "S" then some .same else if s == "O" then some .other
@@ -193,6 +208,74 @@ def showDisc : Except DiscErr (List Rec) → String
   | .error (.lookup .other) => "err ot"
   | .error .noAddress => "err na"
 
+/-! ### `attempt` -/
+
+structure ChainN where
+  c : Chain
+  vNone : List Bool
+  vOther : List Bool
+  pkix : List Bool
+
+def parseChainN (s : String) : Option ChainN :=
+  match s.splitOn ":" with
+  | [n, ca, vh, vn, vo, pk] => do
+    let c ← parseChain s!"{n}:{ca}:{vh}"
+    let vn ← bits? vn
+    let vo ← bits? vo
+    let pk ← bits? pk
+    if vn.length == 2 ^ c.n && vo.length == 2 ^ c.n && pk.length == 2 then pure ⟨c, vn, vo, pk⟩ else none
+  | _ => none
+
+def ChainN.envN (c : ChainN) : EnvN where
+  recMatches r j := r.tag.testBit j
+  isCA j := c.c.ca.getD j false
+  chainVerifyAt name roots _ _ :=
+    (match name with
+     | none => c.vNone
+     | some 0 => c.c.v
+     | some _ => c.vOther).getD (maskOf roots) false
+
+/-- the handshake outcome as crypto/tls produces it: `H` = broken otherwise than by verification;
+`InsecureSkipVerify` = no verification; no server name and no InsecureSkipVerify = refused by the
+library; else its own X.509 verification for the configured name -/
+def helloOf (mode : Char) (pkix : List Bool) (c : TlsCfg) : Hello :=
+  if mode == 'H' then .otherErr
+  else if c.insecure then .ok
+  else match c.serverName with
+    | none => .otherErr
+    | some n => if pkix.getD n false then .ok else .verifyErr
+
+def parseAttempt (c : ChainN) (s : String) : Option Attempt :=
+  match s.toList with
+  | [a, b, k, m] => do
+    if m != 'T' && m != 'H' then none
+    else pure ⟨← bit? a, ← bit? b, ← bit? k, helloOf m c.pkix, c.c.certs⟩
+  | _ => none
+
+def parseBase (s : String) : Option (Option TlsCfg) :=
+  if s == "-" then some none
+  else match s.splitOn ":" with
+  | [n, i] => do
+    let n ← (if n == "-" then some none else (nat? n).map some)
+    pure (some ⟨n, ← bool? i⟩)
+  | _ => none
+
+def showLevel : TLSLevel → String
+  | .none => "none" | .encrypted => "enc" | .authenticated => "auth"
+
+def showMXRes : MXRes → String
+  | .connErr => "connErr"
+  | .panic => "panic"
+  | .refused .tempLookup => "refused temp"
+  | .refused (.dane d) => "refused " ++ showDErr (some d)
+  | .ok l => "ok " ++ showLevel l
+
+def showConnect : ConnectRes → String
+  | .fail => "-"
+  | .ok l st =>
+    let n := match st.serverName with | none => "E" | some 0 => "H" | some _ => "O"
+    s!"{if st.hs then 1 else 0}:{n}:{showLevel l}"
+
 def splitBar (toks : List String) : List String × List String :=
   (toks.takeWhile (· ≠ "|"), (toks.dropWhile (· ≠ "|")).drop 1)
 
@@ -240,6 +323,20 @@ def handle (toks0 : List String) : String :=
         | none => "panic"
         | some r => showCRes r
     | _, _, _ => "bad-op"
+  | ["attempt", base, a0, a1, a2, hr, ck, cn, tr, tm, ch] =>
+    match parseChainN ch with
+    | none => "bad-op"
+    | some c =>
+      match parseBase base, [a0, a1, a2].mapM (parseAttempt c), bool? hr, parseCk ck, parseCn cn,
+          parseAns tr, parseAns tm with
+      | some base, some atts, some hr, some ck, some cn, some tr, some tm =>
+        if !tl.isEmpty then "bad-op"
+        else if !(poolsOk c.c tr.recs && poolsOk c.c tm.recs) then "bad-pools"
+        else
+          let srv : Nat → Attempt := fun i => atts.getD i ⟨false, false, false, fun _ => .otherErr, []⟩
+          let fut := discoverTLSA ⟨ck, cn, tr, tm⟩
+          s!"{showMXRes (attemptMX c.envN 0 base srv hr fut)} st={showConnect (connect 0 base srv)}"
+      | _, _, _, _, _, _, _ => "bad-op"
   | _ => "bad-op"
 
 end Driver.C13
